@@ -36,3 +36,29 @@ MUTANTS["saver_cache_race_hard"] = dict(checks=["C13"], note="only visible at li
    "        if data is not None:\n            self.send(data)\n        else:\n            self.send(_STOP_PROCESSING)\n        return data",
    "        if data is not None:\n            if not self._cache and self._total_cached == 0 and self._inbox.empty():\n                self._cache.append(data)\n                self._total_cached += len(data)\n            else:\n                self.send(data)\n        else:\n            self.send(_STOP_PROCESSING)\n        return data")])
 MUTANTS["saver_no_drain"]["equivalent"] = True  # data never follows the stop marker in the saver's inbox
+
+MUTANTS.update({
+ "close_no_rewind": dict(checks=["C11", "C20"], edits=[(I,
+   "    def close(self):\n        self._is_open = False\n        self.rewind()\n",
+   "    def close(self):\n        self._is_open = False\n")]),
+ "wav_lazy_size": dict(checks=["C11", "C10"], edits=[(I,
+   "            size = -1\n        return self._audio_stream.readframes(size)",
+   "            size = -1\n        if size == 3:\n            size = 4\n        return self._audio_stream.readframes(size)")]),
+ "buffer_read_empty_bytes": dict(checks=["C11"], edits=[(I,
+   "        if data:\n            self._current_position_bytes += len(data)\n            return data\n        return None",
+   "        if data or size == 0:\n            self._current_position_bytes += len(data)\n            return data\n        return None")]),
+ "pos_neg_off_by_one": dict(checks=["C11"], edits=[(I,
+   "        if position < 0 or position > len(self.data):\n            raise IndexError",
+   "        if position < 0 or position >= len(self.data) + self._sample_size_all_channels:\n            raise IndexError")]),
+ "stdin_partial_none": dict(checks=["C11"], edits=[(I,
+   "        data = self._stream.read(bytes_to_read)\n        if data:\n            return data\n        return None",
+   "        data = self._stream.read(bytes_to_read)\n        if data and len(data) == bytes_to_read:\n            return data\n        return None")]),
+})
+
+MUTANTS.update({
+ "val_gt": dict(checks=["C07"], edits=[(U, "        return log_energy >= self._energy_threshold", "        return log_energy > self._energy_threshold")]),
+ "sig_uint8": dict(checks=["C07", "C18"], edits=[(S, "SAMPLE_WIDTH_TO_DTYPE = {1: np.int8,", "SAMPLE_WIDTH_TO_DTYPE = {1: np.uint8,")]),
+ "mix_int_mean": dict(checks=["C07"], edits=[(U, "        return lambda x: to_array_(x).mean(axis=0)", "        return lambda x: np.floor(to_array_(x).mean(axis=0))")]),
+ "energy_floor_1e9": dict(checks=["C07"], edits=[(S, "EPSILON = 1e-10", "EPSILON = 1e-9")]),
+ "neg_channel_index": dict(checks=["C07"], edits=[(U, "        if selected < 0:\n            selected += channels\n", "        if selected < 0:\n            selected += channels - 1\n            selected = max(selected, 0) if selected >= -1 else selected\n")]),
+})
